@@ -47,17 +47,26 @@ static void session_mode(int alg, int tier)
     for (int chain = 0; chain <= 16; chain++) for (int lead = 0; lead < 2; lead++) {
         uint8_t n0[16]; chain_nonce(n0, chain, lead ? 0xfe : 0x41);
         int total = 1; for (int d = 0; d < depth; d++) total *= 3;
-        for (int code = 0; code < total; code++) {
-            api_inc_state st; uint8_t cur[16]; memcpy(cur, n0, 16);
-            api_inc_init[alg](&st, n0, K);
+        /* how the session is opened: 0 = init with N on dirty storage; 1 = init with a NULL nonce (documented: all-zero nonce) on dirty storage;
+         * 2 = re-initialised with a NULL nonce after a packet of an earlier session; 3 = re-initialised with N and a NULL key (documented: all-zero key) after a packet of an earlier session */
+        for (int open = 0; open < 4; open++) for (int code = 0; code < total; code++) {
+            api_inc_state st; uint8_t cur[16]; memcpy(cur, n0, 16); memset(&st, 0xA5, sizeof st); static const uint8_t ZK[20] = {0}; const uint8_t *key = open == 3 ? ZK : K;
+            if (open == 0) api_inc_init[alg](&st, n0, K);
+            else if (open == 1) { api_inc_init[alg](&st, 0, K); memset(cur, 0, 16); }
+            else {
+                uint8_t other[16], t[16], o[8]; chain_nonce(other, (chain + 9) % 17, 0xfe); api_inc_init[alg](&st, other, K);
+                api_inc_start[alg](&st, ADB, 3); api_inc_enc[alg](&st, MSG, o, 5); api_inc_encfin[alg](&st, t);
+                if (open == 2) { api_inc_reinit[alg](&st, 0, K); memset(cur, 0, 16); } else api_inc_reinit[alg](&st, n0, 0);
+            }
+            if (memcmp(api_inc_nonce(alg, &st), cur, 16)) hx_fail(kb, "stored nonce after opening the session (way %d) is not the starting nonce (carry chain %d)", open, chain);
             int c = code, ok = 1;
             for (int p = 0; p < depth && ok; p++, c /= 3) {
                 int kind = c % 3, adl = (p * 5 + 3) % 12, ml = (p * 7 + chain) % 23;
                 uint8_t exp[64], out[64], tag[16];
-                ref_aead_encrypt(alg, K, cur, ADB, adl, MSG, ml, exp);
+                ref_aead_encrypt(alg, key, cur, ADB, adl, MSG, ml, exp);
                 api_inc_start[alg](&st, ADB, adl);
                 ref_nonce_inc(cur);
-                if (memcmp(api_inc_nonce(alg, &st), cur, 16)) { hx_fail(kb, "stored nonce after start #%d is not N+%d (carry chain %d, history code %d)", p + 1, p + 1, chain, code); ok = 0; }
+                if (memcmp(api_inc_nonce(alg, &st), cur, 16)) { hx_fail(kb, "stored nonce after start #%d is not N+%d (carry chain %d, history code %d, opened way %d)", p + 1, p + 1, chain, code, open); ok = 0; }
                 if (kind == 0) {
                     api_inc_enc[alg](&st, MSG, out, ml); api_inc_encfin[alg](&st, tag);
                     if (memcmp(out, exp, ml) || memcmp(tag, exp + ml, 16)) { hx_fail(kb, "packet %d (encrypt) differs from the one-shot result under N+%d (carry chain %d, history code %d)", p, p, chain, code); ok = 0; }
